@@ -20,10 +20,14 @@ TABLE = {
     "c05_rs_hold_row_or.diff": ("contracts.c05", "_latch_placement", None),
     "c07_arith_wires_swapped.diff": ("contracts.c07", "_configure_arithmetic", None),
     "c07_row_not_mirrored.diff": ("contracts.c07", "_configure_decider_multi_condition", None),
+    "c08_mark_occupied_row_only.diff": ("contracts.c08", "mark_occupied", None),
+    "c14_define_shadows_in_inner_scope.diff": ("contracts.c14", "define", None),
+    "c14_error_not_counted.diff": ("contracts.c14", "error", None),
     "c09_xy_swapped.diff": ("contracts.c09", "_place_user_entity", None),
     "c10_liveness_misses_consumers.diff": ("contracts.c10", "_maybe_mark_dead", None),
     "c16_iteration_scope_leaks.diff": ("contracts.c16", "lower_for_stmt", None),
     "c11_merge_fold_not_wrapped.diff": ("contracts.c11", "_try_fold_wire_merge", None),
+    "c16_iterator_leaks_into_outer.diff": ("contracts.c16", "lower_for_stmt", None),
     "c16_le.diff": ("contracts.c16", "get_iteration_values", None),
 }
 RUNNER = r'''
